@@ -659,3 +659,266 @@ Proof.
   rewrite Haf. split; [apply in_seq; lia|].
   rewrite (P2' x Hxl), Hact. exact Ee.
 Qed.
+
+(* ------------------------------------------------------------------ *)
+(* the run induction: Iloop + no crash + the judged clause per record  *)
+(* ------------------------------------------------------------------ *)
+
+Definition lastact (hl : list nat) (s : st) : Prop :=
+  match txs s with
+  | t :: _ => triggers_auto hl t = true -> active s = tx_target t
+  | [] => True
+  end.
+
+Definition jrec (s : st) (t : txrec) : Prop :=
+  tx_hto t <= length (hlog s) /\ judged_codes (sc s) (topo s) (rev (hlog s)) t = [].
+
+Definition J (sch : schema) (tp hl : list nat) (bs : list (list hkey)) (s : st) : Prop :=
+  Iloop sch tp hl bs s /\ crashed s = false /\ lastact hl s /\ Forall (jrec s) (txs s).
+
+Lemma J_frame : forall sch tp hl bs s s',
+  J sch tp hl bs s -> fr s s' ->
+  (pend sch hl (txs s) (queue s) -> pend sch hl (txs s) (queue s')) ->
+  J sch tp hl bs s'.
+Proof.
+  intros sch tp hl bs s s' (I & Hcr & Hla & Hj) F Hq. pose proof F as (K & A & L).
+  split; [eapply Iloop_frame; [exact I | exact F | intros _; exact Hq]|].
+  split; [rewrite (keeps_crashed _ _ K); exact Hcr|]. split.
+  - unfold lastact in *. rewrite (keeps_txs _ _ K), (keeps_active _ _ K). exact Hla.
+  - rewrite (keeps_txs _ _ K). eapply Forall_impl; [|exact Hj]. intros t [Y1 Y2]. unfold jrec.
+    rewrite L, (keeps_sc _ _ K), (keeps_topo _ _ K). tauto.
+Qed.
+
+Lemma J_qonly_idle : forall sch tp hl bs s s',
+  J sch tp hl bs s -> queue s = [] -> qonly s s' -> J sch tp hl bs s'.
+Proof.
+  intros sch tp hl bs s s' Hj Hq Q. eapply J_frame; [exact Hj | apply qonly_fr; exact Q|].
+  intros Hp. rewrite Hq in Hp. apply pend_empty_queue; [exact Hp|].
+  destruct Q as (_ & _ & _ & Qn). apply Qn. rewrite Hq. constructor.
+Qed.
+
+Lemma auto_candidates_props : forall scm act x, In x (auto_candidates scm act) ->
+  x < length scm /\ s_auto (sget scm x) = true /\ ~ In x act.
+Proof.
+  intros scm act x H. unfold auto_candidates, all_states in H. apply filter_In in H.
+  destruct H as [Hs Hb]. apply in_seq in Hs.
+  apply andb_true_iff in Hb. destruct Hb as [Hb _]. apply andb_true_iff in Hb. destruct Hb as [Ha Hn].
+  split; [lia|]. split; [exact Ha|]. apply mem_false. apply negb_true_iff. exact Hn.
+Qed.
+
+Lemma J_drain_step : forall sch tp hl bs s mu rest s2 r,
+  J sch tp hl bs s -> queue s = mu :: rest ->
+  run_tx (popped s mu rest) mu = (s2, r) -> J sch tp hl bs s2.
+Proof.
+  intros sch tp hl bs s mu rest s2 r (I & Hcr & Hla & Hj) Hq H.
+  pose proof (drain_step_inv _ _ _ _ _ _ _ _ _ I Hcr Hq H) as I2.
+  destruct I as (I0 & I1 & I2' & I3 & G & [Hnd Hpa] & Hr & Hc & Hp).
+  destruct (popped_fr s mu rest) as [(K & A & L) Hq1].
+  remember (popped s mu rest) as s1 eqn:Es1.
+  assert (G1 : good s1) by (eapply keeps_good; [exact K | exact G | rewrite A; apply G]).
+  assert (Hnd1 : NoDup (active s1)) by (rewrite (keeps_active _ _ K); exact Hnd).
+  assert (Hpa1 : parity s1).
+  { destruct Hpa as [P1 P2]. unfold parity.
+    rewrite (keeps_clock _ _ K), (keeps_sc _ _ K), (keeps_active _ _ K). split; assumption. }
+  destruct (no_crash_step_lemma _ _ _ _ G1 Hnd1 H) as [Hcr2 (rec & Htx2)].
+  destruct (run_tx_outcome _ _ _ _ G1 H)
+    as (negs & fins & canceled & tgt1 & L2 & C2 & _ & _ & _ & _ & _ & _ & _ & O).
+  destruct C2 as (C2a & C2b & C2c & _).
+  assert (Rb : rec_base s1 mu s2 rec).
+  { destruct O as [(_ & Hx & _)|(rec' & Rb & _)].
+    - rewrite Hx in Htx2. exfalso. eapply cons_neq_self. exact Htx2.
+    - destruct Rb as (Hx & Rb'). assert (rec' = rec) by (rewrite Hx in Htx2; inversion Htx2; reflexivity).
+      subst rec'. split; assumption. }
+  pose proof Rb as (_ & _ & _ & _ & Hau & _ & _ & _ & _ & _ & Hto & _).
+  split; [exact I2|]. split; [rewrite Hcr2, (keeps_crashed _ _ K); exact Hcr|]. split.
+  - unfold lastact. rewrite Htx2. intros Ht.
+    destruct (auto_follows_step_lemma _ _ _ _ _ G1 H Htx2) as [Y _].
+    rewrite (keeps_health _ _ K), I2' in Y. apply Y. exact Ht.
+  - rewrite Htx2, (keeps_txs _ _ K). constructor.
+    + unfold jrec. split; [rewrite Hto; lia|]. rewrite C2a, C2b.
+      destruct (mu_auto mu) eqn:Em.
+      * (* the queued auto mutation *)
+        specialize (Hp Hcr). rewrite Hq in Hp. unfold pend in Hp.
+        destruct (lastc sch hl (txs s)) as [|c cs] eqn:El.
+        { inversion Hp as [|? ? Hm' Hr']. congruence. }
+        destruct Hp as (q & Hx & _). injection Hx as Hmu _.
+        apply (judged_veto_step_lemma s1 mu s2 r rec G1 Hnd1 Hpa1 Em); [|exact H | exact Htx2].
+        rewrite Hmu. split; [reflexivity|]. split; [reflexivity|]. cbn [mu_called auto_mut].
+        intros x Hx'. rewrite <- El in Hx'. rewrite (keeps_sc _ _ K), (keeps_active _ _ K), I1.
+        unfold lastc in Hx'. unfold lastact in Hla. destruct (txs s) as [|t older]; [contradiction|].
+        destruct (triggers_auto hl t) eqn:Et; [|contradiction].
+        rewrite (Hla eq_refl). apply auto_candidates_props. exact Hx'.
+      * unfold judged_codes. rewrite Hau. try rewrite Em. reflexivity.
+    + eapply Forall_impl; [|exact Hj]. intros t [Y1 Y2]. unfold jrec.
+      assert (L2' : hlog s2 = (fins ++ negs) ++ hlog s) by (rewrite L2, L, app_assoc; reflexivity).
+      rewrite L2', C2a, C2b, (keeps_sc _ _ K), (keeps_topo _ _ K). split; [rewrite app_length; lia|].
+      rewrite <- Y2. apply judged_codes_slice. apply slice_rev_ext. exact Y1.
+Qed.
+
+Lemma drain_J : forall sch tp hl bs fuel s first s' fr' ok,
+  J sch tp hl bs s -> drain fuel s first = (s', fr', ok) ->
+  J sch tp hl bs s' /\ (ok = true -> queue s' = []).
+Proof.
+  intros sch tp hl bs. induction fuel as [|f IH]; intros s first s' fr' ok Hj H.
+  - cbn in H. inversion H; subst. split; [exact Hj | discriminate].
+  - rewrite drain_unfold in H.
+    assert (Hh : hung s = false) by apply Hj.
+    assert (Hcr : crashed s = false) by apply Hj.
+    rewrite Hh, Hcr in H. cbn [orb] in H.
+    destruct (queue s) as [|mu rest] eqn:Eq.
+    + inversion H; subst. split; [|intros _; cbn; exact Eq].
+      eapply J_frame; [exact Hj | unfold fr, keeps; repeat split|]. intros Hp. cbn. exact Hp.
+    + destruct (run_tx (popped s mu rest) mu) as [s2 r] eqn:Er.
+      eapply IH; [|exact H]. eapply J_drain_step; eassumption.
+Qed.
+
+Lemma process_queue_J : forall sch tp hl bs fuel s s' res ok,
+  J sch tp hl bs s -> process_queue fuel s = (s', res, ok) ->
+  J sch tp hl bs s' /\ (ok = true -> queue s' = []).
+Proof.
+  intros sch tp hl bs fuel s s' res ok Hj H. unfold process_queue in H.
+  destruct (queue s) eqn:Eq.
+  - inversion H; subst. split; [exact Hj | intros _; exact Eq].
+  - destruct (drain fuel s None) as [[s1 first] ok1] eqn:Ed. inversion H; subst.
+    eapply drain_J; eassumption.
+Qed.
+
+Lemma top_mutation_J : forall sch tp hl bs fuel s mt sts args s' res ok,
+  J sch tp hl bs s -> queue s = [] -> top_mutation fuel s mt sts args = (s', res, ok) ->
+  J sch tp hl bs s' /\ (ok = true -> queue s' = []).
+Proof.
+  intros sch tp hl bs fuel s mt sts args s' res ok Hj Hq H. unfold top_mutation in H.
+  destruct (queue_mutation s mt sts args) as [s1 tk] eqn:E.
+  destruct (queue_mutation_cases _ _ _ _ _ _ E) as [[-> ->]|[Htk Q]].
+  - cbn in H. inversion H; subst. split; [exact Hj | intros _; exact Hq].
+  - rewrite Htk in H. destruct (process_queue fuel s1) as [[s2 r] ok2] eqn:Ep.
+    inversion H; subst. eapply process_queue_J; [|exact Ep].
+    eapply J_qonly_idle; eassumption.
+Qed.
+
+Lemma top_add_J : forall sch tp hl bs fuel s sts args s' res ok,
+  J sch tp hl bs s -> queue s = [] -> top_add fuel s sts args = (s', res, ok) ->
+  J sch tp hl bs s' /\ (ok = true -> queue s' = []).
+Proof.
+  intros sch tp hl bs fuel s sts args s' res ok Hj Hq H. unfold top_add in H.
+  destruct (limit_hit s && _).
+  - inversion H; subst. split; [exact Hj | intros _; exact Hq].
+  - eapply top_mutation_J; eassumption.
+Qed.
+
+Lemma top_remove_J : forall sch tp hl bs fuel s sts args s' res ok,
+  J sch tp hl bs s -> queue s = [] -> top_remove fuel s sts args = (s', res, ok) ->
+  J sch tp hl bs s' /\ (ok = true -> queue s' = []).
+Proof.
+  intros sch tp hl bs fuel s sts args s' res ok Hj Hq H. unfold top_remove in H.
+  destruct (limit_hit s && _).
+  - inversion H; subst. split; [exact Hj | intros _; exact Hq].
+  - eapply top_mutation_J; eassumption.
+Qed.
+
+Lemma top_api_J : forall sch tp hl bs fuel s c s' res ok,
+  J sch tp hl bs s -> queue s = [] -> top_api fuel s c = (s', res, ok) ->
+  J sch tp hl bs s' /\ (ok = true -> queue s' = []).
+Proof.
+  intros sch tp hl bs fuel s c s' res ok Hj Hq H. unfold top_api in H. destruct (ac_kind c).
+  - eapply top_add_J; eassumption.
+  - eapply top_remove_J; eassumption.
+  - destruct (limit_hit s).
+    + inversion H; subst. split; [exact Hj | intros _; exact Hq].
+    + eapply top_mutation_J; eassumption.
+  - destruct (mach_is s (ac_states c)).
+    + eapply top_remove_J; eassumption.
+    + eapply top_add_J; eassumption.
+  - destruct (limit_hit s).
+    + inversion H; subst. split; [exact Hj | intros _; exact Hq].
+    + eapply top_add_J; [| |exact H].
+      * eapply J_qonly_idle; [exact Hj | exact Hq | apply set_err_qonly; reflexivity].
+      * exact Hq.
+  - eapply process_queue_J; [|exact H].
+    eapply J_qonly_idle; [exact Hj | exact Hq | apply prepend_mut_qonly; reflexivity].
+  - eapply process_queue_J; [|exact H].
+    eapply J_qonly_idle; [exact Hj | exact Hq | apply prepend_mut_qonly; reflexivity].
+Qed.
+
+Lemma run_calls_top_J : forall sch tp hl bs fuel cs s acc s' obs ok,
+  J sch tp hl bs s -> queue s = [] ->
+  run_calls_top fuel s cs acc = (s', obs, ok) -> J sch tp hl bs s'.
+Proof.
+  intros sch tp hl bs fuel. induction cs as [|c r IH]; intros s acc s' obs ok Hj Hq H.
+  - cbn in H. inversion H; subst. exact Hj.
+  - cbn [run_calls_top] in H.
+    assert (Hh : hung s = false) by apply Hj.
+    assert (Hcr : crashed s = false) by apply Hj.
+    rewrite Hh, Hcr in H. cbn [orb] in H.
+    destruct (top_api fuel s c) as [[s1 res] ok1] eqn:Et.
+    destruct (top_api_J _ _ _ _ _ _ _ _ _ _ Hj Hq Et) as [J1 Hok1].
+    assert (Hh1 : hung s1 = false) by apply J1.
+    assert (Hcr1 : crashed s1 = false) by apply J1.
+    rewrite Hh1, Hcr1 in H. cbn [orb] in H.
+    destruct ok1.
+    + eapply IH; [exact J1 | apply Hok1; reflexivity | exact H].
+    + inversion H; subst. exact J1.
+Qed.
+
+Lemma init_J : forall sch tp hl ex bs ql acts,
+  fault_free acts -> J sch tp hl bs (init_st sch tp hl ex bs ql acts).
+Proof.
+  intros sch tp hl ex bs ql acts F. split; [apply init_Iloop; exact F|].
+  split; [reflexivity|]. split; [exact I | constructor].
+Qed.
+
+(* (2) no panic escapes a fault-free run *)
+Lemma no_crash_fault_free_lemma : forall sch tp hl ex bs ql acts cs fuel,
+  fault_free acts ->
+  tr_crashed (run fuel (init_st sch tp hl ex bs ql acts) cs) = false /\
+  tr_hung (run fuel (init_st sch tp hl ex bs ql acts) cs) = false.
+Proof.
+  intros sch tp hl ex bs ql acts cs fuel F. rewrite run_unfold.
+  destruct (run_calls_top fuel (init_st sch tp hl ex bs ql acts) cs []) as [[s1 obs] ok] eqn:E.
+  cbn. pose proof (run_calls_top_J _ _ _ _ _ _ _ _ _ _ _ (init_J sch tp hl ex bs ql acts F) eq_refl E) as Hj.
+  split; apply Hj.
+Qed.
+
+(* (1) code 73 never fires on a fault-free run, vetoes included *)
+Lemma judged_codes_run_lemma : forall sch tp hl ex bs ql acts cs fuel,
+  fault_free acts ->
+  forall t, In t (tr_txs (run fuel (init_st sch tp hl ex bs ql acts) cs)) ->
+    judged_codes sch tp (tr_hlog (run fuel (init_st sch tp hl ex bs ql acts) cs)) t = [].
+Proof.
+  intros sch tp hl ex bs ql acts cs fuel F. rewrite run_unfold.
+  destruct (run_calls_top fuel (init_st sch tp hl ex bs ql acts) cs []) as [[s1 obs] ok] eqn:E.
+  cbn. intros t Ht. apply in_rev in Ht.
+  pose proof (run_calls_top_J _ _ _ _ _ _ _ _ _ _ _ (init_J sch tp hl ex bs ql acts F) eq_refl E)
+    as (I & _ & _ & Hj).
+  destruct I as (I0 & I1 & _).
+  rewrite Forall_forall in Hj. destruct (Hj t Ht) as [_ Y]. rewrite I0, I1 in Y. exact Y.
+Qed.
+
+(* all of c07_codes on fault-free runs that did not run out of fuel *)
+Lemma c07_codes_run_lemma : forall sch tp hl ex bs ql acts cs fuel,
+  fault_free acts ->
+  tr_fuel_ok (run fuel (init_st sch tp hl ex bs ql acts) cs) = true ->
+  c07_codes sch tp hl (run fuel (init_st sch tp hl ex bs ql acts) cs) = [].
+Proof.
+  intros sch tp hl ex bs ql acts cs fuel F Hok. unfold c07_codes.
+  rewrite (follow_codes_ok_lemma _ _ _ _ _ _ _ _ _ F Hok).
+  rewrite (flat_map_nil _ _ _ _ (judged_codes_run_lemma sch tp hl ex bs ql acts cs fuel F)).
+  destruct (no_crash_fault_free_lemma sch tp hl ex bs ql acts cs fuel F) as [-> _]. reflexivity.
+Qed.
+
+(* BEnter vetoes inside the auto transition that calls B and C: B is rejected,
+   C is activated, the clause is satisfied *)
+Example judged_codes_run_nonvacuous :
+  let bs := [[HEnter 1; HEnter 2]] in
+  let tr := run 100 (init_st ex_sch2 [] [] 3 bs 1000 [ex_act false]) [ex_add [0]] in
+  tr_fuel_ok tr = true /\ tr_crashed tr = false /\
+  match nth_error (tr_txs tr) 1 with
+  | Some t =>
+    tx_auto t = true /\ tx_called t = [1; 2] /\ tx_accepted t = true /\ tx_target t = [2; 0] /\
+    map (fun h => (hl_key h, hl_ret h)) (slice (tr_hlog tr) (tx_hfrom t) (tx_hto t))
+      = [(HEnter 1, false); (HEnter 2, true)] /\
+    judged_codes ex_sch2 [] (tr_hlog tr) t = []
+  | None => False
+  end /\
+  c07_codes ex_sch2 [] [] tr = [].
+Proof. vm_compute. repeat split; reflexivity. Qed.
